@@ -6,7 +6,7 @@
   with salsa byte for byte (answers, panic classes, every `WillIterateCycle` event).
 
   PROVED
-  * `c15rev_iterations_bounded`: for EVERY program (any strategies, `add` included), every
+  * `c15rev_iterations_bounded`: for EVERY program (any strategies, `add` and `gate` included), every
     state and every request, every `WillIterateCycle` event of the request announces an
     iteration ≤ MAX_ITERATIONS = 200 — what the C15 oracle checks on salsa's event stream.
     (`IterationStamp.increment_iteration` is the function translated from src/cycle.rs.)
